@@ -511,10 +511,10 @@ func (sc *scen) pledgeCfg(m *member, r *prng.R) verifx.PledgeConfig {
 		// per member: the same value bounds this member's wait as a pledger and, once it has
 		// joined, each of its jury rounds as a coordinator. Unequal values put a round that
 		// timed out inside a pledge request that is still alive (seeded C11-2).
-		RequestTimeout:  []time.Duration{4, 25, 25, 70}[r.Intn(4)] * time.Millisecond,
-		RetryInterval:   2 * time.Microsecond,
-		RetryScale:      1.2,
-		MaxProposals:    r.Range(2, 10),
+		RequestTimeout: []time.Duration{4, 25, 25, 70}[r.Intn(4)] * time.Millisecond,
+		RetryInterval:  2 * time.Microsecond,
+		RetryScale:     1.2,
+		MaxProposals:   r.Range(2, 10),
 	}
 }
 
